@@ -39,7 +39,12 @@ def layoutOf (s : String) : Option PfLayout :=
 def showKey (k : NatKey) : String :=
   s!"af={k.af} proto={k.proto} dir={k.direction} s={tok k.saddr}:{k.sport} d={tok k.daddr}:{k.dport}"
 
-def step (s : Unit) (line : String) : Unit × List String :=
+def showUdpEv : UdpEv → String
+  | .open_ c p => s!"open {c} {tok p}"
+  | .data c p => s!"data {c} {tok p}"
+  | .raised => "raised"
+
+def step (s : UdpTable) (line : String) : UdpTable × List String :=
   let bad := (s, ["bad-op"])
   match words line with
   | ["odst", fam, "b", hex] =>
@@ -159,7 +164,15 @@ def step (s : Unit) (line : String) : Unit × List String :=
       | .valueError => (s, ["valueError"])
       | .overflow => (s, ["overflow"])
     | _, _, _ => bad
+  | ["udpnew"] => ([], ["ok"])
+  | ["udpacc", fam, src, ip, port, data, fresh] =>
+    let fresh? : Option (Option Nat) := if fresh == "N" then some none else fresh.toNat?.map some
+    match fam.toNat?, src.toNat?, bytesOfHex ip, port.toInt?, bytesOfHex data, fresh? with
+    | some f, some src, some ip, some p, some d, some fr =>
+      let r := onacceptUdp s f src ip p d fr
+      (r.1, [if r.2.isEmpty then "-" else " ".intercalate (r.2.map showUdpEv)])
+    | _, _, _, _, _, _ => bad
   | ["#flush"] => (s, [])
   | _ => bad
 
-def main : IO Unit := runDriver step ()
+def main : IO Unit := runDriver step ([] : UdpTable)
